@@ -19,7 +19,7 @@ def op(o, kind, i, **kw):
 
 
 def ev(t, **kw):
-    d = {"t": t, "peer": "", "seq": 0, "node": "", "cp": "", "seid": "", "sref": 0, "rref": 0, "ops": [], "faults": [],
+    d = {"t": t, "peer": "", "seq": 0, "node": "", "cp": "", "seid": "", "sref": 0, "rref": 0, "ops": [], "faults": [], "faults2": [],
          "reports": [], "tt": "", "tpeer": "", "tseq": 0, "raw": "", "maxrt": 0, "txseq0": "", "tag": ""}
     d.update(kw)
     return d
@@ -94,6 +94,9 @@ class Gen:
     def faults(self, p):
         return [i for i in range(8) if self.r.random() < p]
 
+    def faults2(self, p):
+        return [i for i in range(8) if self.r.random() < p / 2]
+
     # ---- events
     def assoc_ev(self, node=None, peer=None):
         r = self.r
@@ -117,7 +120,7 @@ class Gen:
         cp = r.choice(cps) if r.random() > bad / 2 else ""
         s = {"ord": 0, "alive": False, "node": node, "peer": peer, "cp": cp, "ids": {k: set() for k in KINDS}}
         ops = self.uniq_bar([self.rnd_op(s, creates_only=True) for _ in range(r.randint(0, maxops))])
-        e = ev("est", peer=peer, seq=self.nseq(peer), node=node, cp=cp, ops=ops, faults=self.faults(pfault))
+        e = ev("est", peer=peer, seq=self.nseq(peer), node=node, cp=cp, ops=ops, faults=self.faults(pfault), faults2=self.faults2(pfault))
         if node in self.assoc and cp != "":
             s["ord"] = 1 + sum(1 for x in self.sess)
             s["alive"] = True
@@ -146,7 +149,7 @@ class Gen:
                                 ops=[op("create", "far", 1)] if r.random() < 0.5 else []))
         peer = s["peer"] if r.random() < 0.9 else "p%d" % r.randint(1, self.npeers)
         ops = self.uniq_bar([self.rnd_op(s, no_loose=no_loose, maxid=maxid) for _ in range(r.randint(0, maxops))])
-        return self.emit(ev("mod", peer=peer, seq=self.nseq(peer), sref=s["ord"], ops=ops, faults=self.faults(pfault)))
+        return self.emit(ev("mod", peer=peer, seq=self.nseq(peer), sref=s["ord"], ops=ops, faults=self.faults(pfault), faults2=self.faults2(pfault)))
 
     def del_ev(self, lit=0.1):
         r = self.r
